@@ -158,24 +158,52 @@ pub fn check_c08(prog: &NetProgram, res: &NetResult, info: &mut RunInfo) {
     }
     // deliveries
     let mut expected: BTreeMap<u32, (usize, u64, G, usize)> = BTreeMap::new(); // uid -> (receiver, arrival, far gate, sender)
+    let mut slack: BTreeMap<u32, u64> = BTreeMap::new(); // sum of the jitter bounds of the hops
+    // occupancy of every channel direction that can be busy: (enter, end of transmission, uid). Messages that would
+    // overlap on such a hop queue up there - what a busy channel does is C07's subject, their arrival time is not judged
+    let mut occupancy: BTreeMap<(G, G), Vec<(u64, u64, u32)>> = BTreeMap::new();
     for r in &res.trace {
         if let Ev::Offer { uid, gate, len, delay_ns, .. } = &r.ev {
             let from: G = (r.m as usize, *gate as usize);
             let hops = graph.walk(from);
             let mut t = r.t + delay_ns;
-            for (_, ch) in &hops {
+            let mut j = 0u64;
+            let mut prev = from;
+            for (g, ch) in &hops {
                 if let Some(c) = ch {
-                    t += busy_ns(*len as usize, c.bitrate) + c.latency_ns;
+                    let b = busy_ns(*len as usize, c.bitrate);
+                    if b > 0 {
+                        occupancy.entry((prev, *g)).or_default().push((t, t + b + j, *uid));
+                    }
+                    t += b + c.latency_ns;
+                    j += c.jitter_ns;
                     info.probe("hop_with_channel");
                 }
+                prev = *g;
             }
             let far = hops.last().map_or(from, |h| h.0);
+            slack.insert(*uid, j);
             expected.insert(*uid, (far.0, t, far, r.m as usize));
             if *delay_ns > 0 {
                 info.probe("delayed_send");
             }
         }
     }
+    let mut contended: BTreeSet<u32> = BTreeSet::new();
+    for v in occupancy.values_mut() {
+        v.sort_unstable();
+        for w in 0..v.len() {
+            for x in w + 1..v.len() {
+                if v[x].0 <= v[w].1 {
+                    contended.insert(v[w].2);
+                    contended.insert(v[x].2);
+                } else {
+                    break;
+                }
+            }
+        }
+    }
+    info.probe_n("messages_contending_for_a_channel_not_judged_on_time", contended.len() as u64);
     let mut seen: BTreeSet<u32> = BTreeSet::new();
     for r in &res.trace {
         if let Ev::Recv { uid, sender_m, receiver_ok, last_m, last_g, kind, .. } = &r.ev {
@@ -194,8 +222,10 @@ pub fn check_c08(prog: &NetProgram, res: &NetResult, info: &mut RunInfo) {
                 info.violate(Violation::new("C08", "wrong-receiver", format!("message {uid:#x} sent by module {sm} arrived at module {} but the chain ends at module {rm}", r.m)));
                 return;
             }
-            if r.t.abs_diff(*t) > 2 {
-                info.violate(Violation::new("C08", "arrival-time", format!("message {uid:#x} arrived at {} ns, send time + sum of hop delays = {t} ns", r.t)));
+            let j = slack.get(uid).copied().unwrap_or(0);
+            if !contended.contains(uid) && (r.t + 2 < *t || r.t > *t + j + 2) {
+                info.violate(Violation::new("C08", "arrival-time", format!(
+                    "message {uid:#x} arrived at {} ns, send time + sum of hop delays = {t} ns (+ at most {j} ns of jitter)", r.t)));
                 return;
             }
             if *sender_m != *sm as i32 || !receiver_ok {
@@ -461,7 +491,7 @@ pub fn check_c12(prog: &NetProgram, res: &NetResult, info: &mut RunInfo) {
         }
         info.probe("invalid_node_rejected");
     }
-    let end_faults = prog.modules.iter().any(|m| m.end_err || m.panic_at == 200);
+    let end_faults = prog.modules.iter().any(|m| m.end_err || m.panic_at == 200 || m.beats.iter().any(|b| b.acts.iter().any(|a| matches!(a, Act::Panic))));
     if res.ok.is_none() {
         if res.started && !end_faults {
             info.violate(Violation::new("C12", "run-error", format!("fault-free run returned errors {:?}", res.errors)));
